@@ -2087,6 +2087,22 @@ func (e *Exec) callBuiltin(b *ssa.Builtin, args []Value, fr *Frame, deferOf *Fra
 			}
 			return nil, nil
 		}
+	case "String": // unsafe.String(ptr *byte, len)
+		p, ok := args[0].(Ptr)
+		n := int(e.concretizeInt(args[1].(*Term), types.Typ[types.Int], "unsafe.String length"))
+		if ok && n == 0 {
+			return StrV{}, nil
+		}
+		if ok && p.obj != nil && len(p.path) > 0 {
+			if idx, isInt := p.path[len(p.path)-1].(int); isInt {
+				bs := make([]*Term, n)
+				for i := 0; i < n; i++ {
+					q := Ptr{obj: p.obj, path: append(append([]interface{}{}, p.path[:len(p.path)-1]...), idx+i)}
+					bs[i] = e.load(q).(*Term)
+				}
+				return e.mkStr(bs), nil
+			}
+		}
 	case "ssa:wrapnilchk":
 		if p, ok := args[0].(Ptr); ok && p.obj == nil {
 			return nil, &GoPanic{msg: "value method called using nil pointer", runtime: true, val: IfaceV{typ: e.eng.runtimeErrType, val: StrV{s: "nil pointer"}}}
